@@ -278,7 +278,7 @@ func (r *prng) float() float64 {
 // goroutine identity: goid -> *Task in a table of atomics
 
 //go:norace
-func goid() uint64 {
+func goidSlow() uint64 {
 	var buf [40]byte
 	n := runtime.Stack(buf[:], false)
 	// "goroutine 123 [running]:..."
